@@ -578,3 +578,24 @@ Lemma replay_rng0 (ds : list (bool * rle)) q :
   RM.C09.Model.replay rle pst recog_pst bump_pst lineno_pst init_pst ds = inl q ->
   pst_rng (RM.C09.Model.size rle cllen (map snd ds)) q.
 Proof. intros H. exact (replay_rng ds 0 init_pst q (Z.le_refl 0) init_pst_rng H). Qed.
+
+(* front-end G, Symbolizer::get_symbol_at_address(debug_file, debug_id, address): the (&str, DebugId) module has
+   base 0, only the name is returned ([Driver.symbol_at]).  On any table parsed from the records: never panics,
+   and the name is that of a FUNC record covering the address or of a PUBLIC at or below it. *)
+Lemma symbol_at_sound p rf st address :
+  wf_file rf -> st_rel true rf st -> 0 <= address < two64 ->
+  exists r, RM.C11.Driver.symbol_at p st address = Ret r /\
+    forall n, r = Some n ->
+      (exists fr, In fr (rf_funcs rf) /\ func_covers fr address = true /\ n = Model.fr_name fr) \/
+      (exists pb, In pb (rf_publics rf) /\ p_addr pb <= address /\ n = p_name pb).
+Proof.
+  intros Hwf Hrel [Ha0 Ha]. unfold RM.C11.Driver.symbol_at.
+  rewrite (table_interface p rf st 0 address Hwf Hrel (Z.le_refl 0) Ha).
+  destruct (func_sound p rf 0 address Hwf (Z.le_refl 0) Ha) as (o & Eo & _ & Hf).
+  rewrite Eo. cbn [obind]. eexists. split; [reflexivity|]. intros n Hn.
+  destruct (o_func o) as [[[name base] ps]|] eqn:Ef; [|discriminate]. inversion Hn; subst n.
+  destruct (Hf name base ps eq_refl) as (_ & _ & [(fr & Hin & Hc & Hname & _)|(pb & Hin & Hle & Hname & _)]);
+    rewrite Z.sub_0_r in *.
+  - left. exists fr. auto.
+  - right. exists pb. auto.
+Qed.
